@@ -2,7 +2,8 @@
 
 Nodes = fresh interpreters started with seeded PYTHONHASHSEED values; each builds the
 same abstract values through a seeded construction history (insertion order,
-insert-and-delete of extra keys, equal-but-distinct strings) and reports md5 and
+insert-and-delete of extra keys, and per occurrence of a str / bytes literal either the
+object already built for an equal literal of this value or an equal distinct one) and reports md5 and
 sha1 digests; all nodes x histories must agree per value.  By-product (sampling):
 near-collision pairs (one leaf or container type changed) must get different digests.
 """
@@ -15,7 +16,7 @@ TIMEOUT_S = 240.0
 RULE = ("one run = batch of 40 abstract values (recursive builtin scalars / list / tuple / set / frozenset / dict, depth <= 3, "
         "elements of one set and keys of one dict pairwise unequal across types) + for each a near-collision mutant (one "
         "leaf or container type changed) evaluated on 6 interpreter nodes = (PYTHONHASHSEED in {0, 1, 2, random...}) x "
-        "(history seed: construction history of the value, order in which the node hashes the batch, unrelated joblib.hash "
+        "(history seed: construction history of the value incl. shared-or-distinct str / bytes objects, order in which the node hashes the batch, unrelated joblib.hash "
         "calls in between -- some failing half-way through the dump, some on sets that are not totally ordered -- and a second "
         "hashing of 30 % of the values later in the same interpreter; one node is the quiet baseline); one evaluation = one value on all nodes; distinct = distinct canonical values; "
         "non-trivial = the value contains a set, frozenset or dict with >= 2 entries (so that order can matter)")
@@ -26,7 +27,7 @@ ASSUMPTIONS = ["values without aliased mutable sub-objects, as the property stat
 N_RUNS = {"quick": 40, "thorough": 2500}
 
 LITS = ["1", "1.0", "True", "None", "'a'", "b'a'", "'b'", "'ab'", "2", "(1+1j)", "'x'*50", "-1", "1e300", "float('inf')", "2.5",
-        "0", "''", "b''", "False", "'1'"]
+        "0", "''", "b''", "False", "'1'", "b'ab'", "b'x'*50", "b'ab'", "'ab'"]
 
 
 def _key(spec):
@@ -53,7 +54,7 @@ def gen(rng, depth, hashable=False):
             k = gen(rng, depth - 1, True)
             if repr(_key(k)) not in seen:
                 seen.add(repr(_key(k))); ks.append(k)
-        return [t] + [[k, gen(rng, depth - 1)] for k in ks]
+        return [t] + [[k, json.loads(json.dumps(k)) if rng.random() < 0.15 else gen(rng, depth - 1)] for k in ks]
     if t in ("set", "frozenset"):
         ks = []; seen = set()
         for _ in range(n):
@@ -61,7 +62,12 @@ def gen(rng, depth, hashable=False):
             if repr(_key(k)) not in seen:
                 seen.add(repr(_key(k))); ks.append(k)
         return [t] + ks
-    return [t] + [gen(rng, depth - 1, hashable) for _ in range(n)]
+    kids = [gen(rng, depth - 1, hashable) for _ in range(n)]
+    if kids and rng.random() < 0.25:
+        # an element repeated within one sequence: its str / bytes parts may then be one shared object or
+        # equal but distinct ones, per node (c08_node.build)
+        kids.insert(rng.randrange(len(kids) + 1), json.loads(json.dumps(rng.choice(kids))))
+    return [t] + kids
 
 
 SWAP = {"1": ["1.0", "True"], "1.0": ["1", "True"], "True": ["1", "1.0"], "'a'": ["b'a'", "'b'"], "b'a'": ["'a'"], "0": ["False", "''"],
